@@ -422,6 +422,9 @@ func (E *Engine) LevelsOf(name string) []int {
 			need[facetLevel[c.Facet]] = true
 		}
 	}
+	for _, cs := range ct.CallSites {
+		need[facetLevel[cs.C.Facet]] = true
+	}
 	var ls []int
 	for l := 0; l < 3; l++ {
 		if need[l] {
